@@ -40,7 +40,8 @@ ASSUMPTIONS = [
 ]
 
 MIN_OBLIGATIONS = 12
-MIN_PER_RULE = {'C05.1': 4, 'C05.2': 5, 'C05.3': 4, 'C05.4': 1, 'C05.5': 1}
+MIN_PER_RULE = {'C05.1': 4, 'C05.2': 5, 'C05.3': 4, 'C05.4': 1, 'C05.5': 1,
+                'C05.6': 2}
 
 
 def _placement_loop(ctx):
@@ -495,8 +496,78 @@ def _resolve_local(func, expr):
     return N.txt(expr)
 
 
+def _group_removal(ctx):
+    """C05.6: an identity group object is dropped from the registry only
+    when no instance references it (otherwise a re-created group and the
+    stale object hand out the same identities)."""
+    cell = ctx.index.get_class(K.SCHED, 'Cell')
+    nz = N.Normaliser()
+    funcs = []
+    for func in cell.methods.values():
+        for sub in K.walk_no_nested(func.node):
+            if isinstance(sub, ast.Delete) and any(
+                    isinstance(t, ast.Subscript) and
+                    N.txt(t.value) == 'self.identity_groups'
+                    for t in sub.targets):
+                funcs.append(func)
+                break
+    func = K.one(funcs, 'Cell method deleting from self.identity_groups')
+    graph = ctx.cfg(func)
+    dels = [n for n in graph.nodes if n.kind == 'stmt' and
+            isinstance(n.ast, ast.Delete)]
+    loops = [n for n in graph.nodes if n.kind == 'for' and
+             'self.apps' in N.txt(n.ast.iter)]
+    loop = K.one(loops, 'loop over self.apps in %s' % func.qualname)
+    var = sorted(N.for_targets(loop))[-1]
+    facts = N.must_facts(graph, nz)
+    body = K.loop_body_nodes(loop)
+    flagged = []
+    for node in body:
+        if node.kind != 'stmt':
+            continue
+        mine = [f for f in facts[node] if any(
+            m == var or m.startswith(var + '.') for m in f.mentions)]
+        if not mine:
+            continue
+        flagged.append(node)
+        extra = []
+        for fact in mine:
+            key = fact.key
+            ok = False
+            if key[0] == 'cmp' and key[1] == '==':
+                terms = [t for t, _c in key[2]]
+                ok = '%s.identity_group_ref' % var in terms and \
+                    len(terms) == 2
+            elif key[0] == 'is' and key[3]:
+                ok = '%s.identity_group_ref' % var in key[1:3]
+            if not ok:
+                extra.append(N.show(fact))
+        ctx.ob('C05.6', func, node, not extra,
+               'the in-use test of the group is reference equality only'
+               if not extra else
+               'the in-use test is narrowed by %s: a group still referenced '
+               'by instances can be dropped' % ', '.join(extra))
+    ctx.require(flagged, 'in-use branch of %s' % func.qualname)
+    # the deletion is reachable only when the loop found no reference
+    flags = set()
+    for node in flagged:
+        if isinstance(node.ast, ast.Assign) and \
+                isinstance(node.ast.targets[0], ast.Name) and \
+                isinstance(node.ast.value, ast.Constant) and \
+                node.ast.value.value is True:
+            flags.add(node.ast.targets[0].id)
+    for node in dels:
+        ok = any(K.guarded_by(graph, node, lambda e, f=flag: K.truth_edge(
+            nz, e, f, False), start=loop) for flag in flags) or \
+            not any(node in C.reach_after(fl, edge_ok=C.no_exc)
+                    for fl in flagged)
+        ctx.ob('C05.6', func, node, ok,
+               'registry deletion only on the not-in-use outcome')
+
+
 def check(ctx):
     _typestate(ctx)
+    _group_removal(ctx)
     _removal_pairing(ctx)
     _range_maintenance(ctx)
     _forced(ctx)
@@ -603,6 +674,17 @@ MUTANTS = [
         identity_group_ref""")], 'C05.5'),
 ]
 
+MUTANTS += [
+    ('group-removal-narrowed', [(_S, """                if app.identity_group_ref == ident_group:
+""", """                if (app.identity_group_ref == ident_group and
+                        app.identity is not None):
+""")], 'C05.6'),
+    ('group-removal-always', [(_S, """            if not in_use:
+                del self.identity_groups[name]
+""", """            del self.identity_groups[name]
+""")], 'C05.6'),
+]
+
 REFACTORS = [
     ('rename-loop-var', [(_S, """            if app.schedule_once and app.evicted:
                 app.release_identity()
@@ -643,6 +725,9 @@ REFACTORS = [
             self.available -= set(six.moves.xrange(count, self.count))
         else:
             self.available ^= set(six.moves.xrange(self.count, count))
+""")]),
+    ('group-removal-is', [(_S, """                if app.identity_group_ref == ident_group:
+""", """                if ident_group is app.identity_group_ref:
 """)]),
     ('helper-releases', [(_S, """            if app.schedule_once and app.evicted:
                 app.release_identity()
